@@ -65,6 +65,10 @@ type Input struct {
 	IUSE      []IuseTok `json:"iuse"`
 	USE       []string  `json:"use_on"`
 	Parent    []PFlag   `json:"parent"`
+	// round 5: the candidate / the depending package as a VDB entry read by the real loader
+	// (nil: the flags are set directly from IUSE/USE resp. Parent, as before)
+	Cand *VdbEnt `json:"cand_vdb,omitempty"`
+	Par  *VdbEnt `json:"parent_vdb,omitempty"`
 }
 
 var kindNames = []string{"_alpha", "_beta", "_pre", "_rc", "_p"}
@@ -289,33 +293,17 @@ func observe(in Input) Obs {
 			done <- Obs{Kind: "err", Stage: 0, Msg: err.Error()}
 			return
 		}
-		ca, err := atom.NewUnprefixedConcreteAtom(in.PkgString())
+		cand, ca, ctx, err := candidateAndContext(in) // r5_vdb.go
 		if err != nil {
 			done <- Obs{Kind: "err", Stage: 1, Msg: err.Error()}
 			return
 		}
-		if in.PRoute == 1 {
-			sub := ""
-			if in.PHasSub {
-				sub = in.PSub
-			}
-			ca.SetSlotAndSubslot(in.PSlot, sub)
-		}
-		// the production path of vdb/get_list.go: IUSE_EFFECTIVE line, then USE line
-		ca.UseFlags = atom.NewUseFlagSetFromIUSE(in.IuseLine())
-		ca.UseFlags.SetFlagsFromUSE(in.UseLine())
-		ctx := atom.UseFlagMap{}
-		for _, p := range in.Parent {
-			if _, have := ctx[p.Flag]; !have {
-				ctx[p.Flag] = p.On
-			}
-		}
 		o.Kind = "ok"
 		o.DepCV, o.DepSlot, o.DepSub = da.ComparisonString(), da.Slot, da.Subslot
 		o.PkgCV, o.PkgSlot, o.PkgSub = ca.ComparisonString(), ca.Slot, ca.Subslot
-		o.VS = da.VersionAndSlotMatch(ca)
-		o.Flags = len(da2.FilterAtoms([]atom.Atom{ca}, ctx)) > 0
-		o.Filter = len(da.FilterAtoms([]atom.Atom{ca}, ctx)) > 0
+		o.VS = da.VersionAndSlotMatch(cand)
+		o.Flags = len(da2.FilterAtoms([]atom.Atom{cand}, ctx)) > 0
+		o.Filter = len(da.FilterAtoms([]atom.Atom{cand}, ctx)) > 0
 		done <- o
 	}()
 	select {
@@ -344,12 +332,18 @@ func Run(in Input, classes []string) *common.Case {
 	o := observe(in)
 	a, p, par := inputTerm(in)
 	c := &common.Case{}
-	c.Coq = q.App("C13.MkCase", a, p, par, obsTerm(o))
+	c.Coq = q.App("C13.MkX", q.App("C13.MkCase", a, p, par, obsTerm(o)), entTerm(in.Cand), entTerm(in.Par))
 	dep, pkg := in.DepString(), in.PkgString()
 	c.Key = dep + "|" + pkg + "|" + in.IuseLine() + "|" + in.UseLine() + "|" + fmt.Sprint(in.Parent)
+	if in.Cand != nil || in.Par != nil {
+		c.Key += "|vdb:" + in.Cand.describe() + in.Par.describe()
+	}
 	c.Nontrivial = len(in.Use) > 0 || (in.HasVer && in.AVer.String() != in.PVer.String())
 	c.Desc = map[string]interface{}{
 		"input": in, "dep": dep, "pkg": pkg, "iuse": in.IuseLine(), "use": in.UseLine(), "obs": o,
+	}
+	if in.Cand != nil || in.Par != nil {
+		c.Desc["cand_vdb"], c.Desc["parent_vdb"] = in.Cand.describe(), in.Par.describe()
 	}
 	cl := append([]string{}, classes...)
 	if in.HasVer {
